@@ -669,6 +669,9 @@ func debugMain(h *Harness) {
 	cfg.Prefix = prefix
 	cfg.Labels = true
 	cfg.Trace = 3000
+	if ms, _ := strconv.Atoi(os.Getenv("VERIF_MAXSTEPS")); ms > 0 {
+		cfg.MaxSteps = ms
+	}
 	res, v := h.Run(sc, cfg)
 	for _, l := range res.Trace {
 		fmt.Println(l)
